@@ -26,11 +26,40 @@ NEEDS = {
 }
 
 
+NEEDS2 = {
+ "C01": ("the forwarded argument identifiers are re-spanned to the trait identifier: a macro_rules!-generated fn whose parameters come from two hygiene contexts with the SAME name gets the wrong argument forwarded (or E0425)", "witness c01_macro_hygiene (R-DELEG resolves operands by binding, shows [0, 1, 1]); FnModView accepts metavariable trait names; `//! twin: skip` header"),
+ "C02": ("`const unsafe fn` / `async unsafe fn` (unsafe is not the first qualifier): struct-update overwrites the unsafety syn parsed itself", "witnesses ConstUnsafe / AsyncUnsafe / ConstUnsafeExtern in c02_unsafe_fn; qualifier combinations in the C03 matrix"),
+ "C03": ("named generic deps + a second type parameter bounded ONLY in the where clause: every type where-predicate dropped from the method", "none (C03 matrix gtw classes, c02_fn_items::WhereClause)"),
+ "C04": ("deps bounded by two or more SEPARATE where predicates (`where D: A, D: B`): only the first is kept", "none (c04_bounds::B9)"),
+ "C05": ("concrete deps + async + `?Send`: the nested trait invocation does not carry the option, the trait demands Send futures", "witnesses CNoSend / CNoSendBorrowed in c05_concrete"),
+ "C06": ("entraited trait method with `_` followed by a named parameter: status accumulator dropped, delegating-method emitter panics", "none (c15_trait_wild_param)"),
+ "C07": ("`?Send` + static delegation target: TraitImpl<T> is generated with Send futures (future_send reset)", "none (C12 compares delegation-target traits; C07 target-output)"),
+ "C08": ("module mode + `pub(in crate::path)`: the in-module trait becomes `pub(in super::crate::path)` (E0433)", "witness c08_modules::path_vis"),
+ "C09": ("async trait method with a method-level where clause: rebuilt signature prints generics without the where clause", "witness c09_shapes::AsyncWhere"),
+ "C10": ("`entrait_export` on a TRAIT: export fallback skipped, mock stays cfg(test)-gated", "none (lattice points trait x entrait_export)"),
+ "C11": ("`no_deps` fn whose generated-name parameter precedes a plain one: unmock_with arguments listed plain-first", "witnesses UNoDepsMixed / UNoDepsMixed4 / UMixed4 in c11_unimock"),
+ "C12": ("`#[async_trait(?Send)]` (attribute WITH arguments) is no longer recognised as async_trait", "witnesses AtArgsPlain / AtArgsRef; the rule now reads async_trait's own ?Send"),
+ "C13": ("module mode, restricted requested visibility on a `pub mod`: the trait inside the module is made `pub`", "none (inner-vis rule of C13)"),
+ "C14": ("explicit `delegate_by = Self` falls into the dyn-AsRef arm: trait object + vtable call", "none (c17_delegate_by_self: C06 R-PRED/R-DELEG and C14 fire)"),
+ "C15": ("`#[entrait(FooImpl, delegate_by = Self)]`: `unreachable!` instead of the `Missing delegate_by` diagnostic", "none (neg/n_target_with_delegate_self + G-PANIC inventory)"),
+ "C16": ("a pattern parameter BEFORE a parameter named like the function: `Iterator::all` short-circuits the rename", "none (exhaustive enumeration)"),
+ "C17": ("`?Send` as the FIRST argument on a trait is parsed as a delegation-target name and rejected", "none (option-order permutations on traits)"),
+ "C18": ("async method of an entraited trait: attributes (e.g. a disabled cfg) are not mirrored on the delegating method", "async methods with markers / cfg in c18_attrs::AttrTrait"),
+ "C19": ("unimock `prefix=::entrait::__unimock` dropped for traits without mock_api: expansion needs a direct `unimock` dependency", "the hostile crate (which depends on entrait only) is now also compiled with the unimock feature"),
+ "C20": ("thread_local scratch set of taken identifiers that is only cleared on the slow path: names depend on earlier invocations", "none (G-EFFECT thread-local)"),
+}
+
+
 def main():
+    import os
+    if os.environ.get("SEED_ROUND") == "2":
+        global NEEDS
+        NEEDS = NEEDS2
     base = subprocess.run(["git", "-C", "/repo", "log", "--format=%h", "-1"], capture_output=True, text=True).stdout.strip()
     ids = sys.argv[1:] or sorted(NEEDS)
     for sid in ids:
-        w = "/tmp/seed/%s" % sid
+        root = "/tmp/seed2" if os.environ.get("SEED_ROUND") == "2" else "/tmp/seed"
+        w = "%s/%s" % (root, sid)
         patch = os.path.join(w, "patch_rebased.diff") if os.path.exists(os.path.join(w, "patch_rebased.diff")) else os.path.join(w, "patch.diff")
         p = subprocess.run(["python3", "/verif/tools/seedrun.py", patch], capture_output=True, text=True)
         fired_line = [l for l in p.stdout.splitlines() if l.startswith("fired:")]
@@ -43,7 +72,7 @@ def main():
                 cur = l.split()[0]
             elif cur and l.strip().startswith("rule=") and cur not in first:
                 first[cur] = l.strip()[:300]
-        dst = "/verif/seeded/%s" % sid
+        dst = "/verif/seeded/%s%s" % (sid, "-r2" if os.environ.get("SEED_ROUND") == "2" else "")
         shutil.rmtree(dst, ignore_errors=True)
         os.makedirs(dst)
         shutil.copy(patch, os.path.join(dst, "patch.diff"))
@@ -51,21 +80,21 @@ def main():
             shutil.copy(os.path.join(w, "patch.diff"), os.path.join(dst, "patch_original.diff"))
         shutil.copytree(os.path.join(w, "demo"), os.path.join(dst, "demo"), ignore=shutil.ignore_patterns("target", "expansions"))
         confirm = ""
-        for log in ("/tmp/seed/confirm.log", "/tmp/seed/confirm2.log"):
+        for log in (root + "/confirm.log", root + "/confirm2.log"):
             if os.path.exists(log):
                 for l in open(log):
                     if l.startswith(sid + ":"):
                         confirm = l.strip()
         meta = {
             "property": sid,
-            "breaks": open("/tmp/seed/%s.prop.txt" % sid).read().split("\n")[0],
+            "breaks": open(root + "/%s.prop.txt" % sid).read().split("\n")[0],
             "needs_to_manifest": NEEDS[sid][0],
             "author": "fresh sub-agent given only the property text and a scratch worktree",
             "confirmed_by_me": {"worktree": w, "result": confirm,
                                 "commands": ["cargo test --workspace --no-fail-fast --offline   # with the change: 40 passed",
                                              "demo (cargo test --offline or ./run.sh) with the change: fails; after `git checkout -- entrait_macros src`: passes"]},
             "applies_to_repo_commit": base,
-            "checks_run": "python3 tools/seedrun.py seeded/%s/patch.diff   # git -C /repo apply, ./check C01..C20 quick, git -C /repo checkout -- ." % sid,
+            "checks_run": "python3 tools/seedrun.py seeded/%s/patch.diff   # git -C /repo apply, ./check C01..C20 quick, git -C /repo checkout -- ." % os.path.basename(dst),
             "quick_checks_that_fire": fired,
             "check_errors": errors,
             "target_property_check_fires": sid in fired,
